@@ -66,12 +66,26 @@ FromClause(name, cl) ==
   LET pad == name = "python_full_version" /\ cl.op \notin {"~=", "==*", "!=*"}
   IN [kind |-> "ver", var |-> name, op |-> cl.op, rel |-> IF pad THEN PadTo3(cl.v.rel) ELSE cl.v.rel, rev |-> FALSE]
 FromSpecClauses == { c \in [op : VerOps, v : BoundVersions] : ValidClause(c) /\ (c.op \in {"==*", "!=*"} => Len(c.v.rel) <= 2) }
+\* computed two-range unions (holes): from_specifier re-renders them as `!= V` or `!= X.Y.*` when simple
+FromSpecHoles == { [lo |-> uv[1], hi |-> uv[2], ui |-> f[1], li |-> f[2]] :
+                     uv \in { q \in BoundVersions \X BoundVersions : VLess(q[1], q[2]) \/ q[1] = q[2] }, f \in BOOLEAN \X BOOLEAN }
+HoleAtom(name, h) ==
+  LET s == SimplifiedHole(Rg(<<>>, <<h.lo>>, FALSE, h.ui), Rg(<<h.hi>>, <<>>, h.li, FALSE)) IN
+  IF s.k \in {"ne", "newild"}
+    THEN [ok |-> TRUE, a |-> [kind |-> "ver", var |-> name, op |-> s.cl.op,
+                              rel |-> IF name = "python_full_version" /\ s.cl.op = "!=" THEN PadTo3(s.cl.v.rel) ELSE s.cl.v.rel, rev |-> FALSE]]
+    ELSE [ok |-> FALSE, a |-> [kind |-> "ver", var |-> name, op |-> "==", rel |-> <<0>>, rev |-> FALSE]]
 FromSpecInit == /\ item \in { [k |-> "fromspec", name |-> n, r |-> r] : n \in {"python_version", "python_full_version"}, r \in FromSpecRanges } \cup
+                            { [k |-> "fromhole", name |-> n, h |-> h] : n \in {"python_version", "python_full_version"},
+                                 h \in { g \in FromSpecHoles : VLess(g.lo, g.hi) \/ (~g.ui /\ ~g.li) } } \cup
                             { [k |-> "fromclause", name |-> n, cl |-> c] : n \in {"python_version", "python_full_version"}, c \in FromSpecClauses }
                 /\ phase = "item" /\ table = <<>>
 FromSpecNext == /\ phase = "item" /\ phase' = "converted"
                 /\ table' = IF item.k = "fromspec"
                                THEN LET f == FromRange(item.name, item.r)
+                                    IN IF ~f.ok THEN <<>> ELSE [i \in 1..Len(EnvSeq) |-> EvalAtom(f.a, EnvSeq[i])]
+                             ELSE IF item.k = "fromhole"
+                               THEN LET f == HoleAtom(item.name, item.h)
                                     IN IF ~f.ok THEN <<>> ELSE [i \in 1..Len(EnvSeq) |-> EvalAtom(f.a, EnvSeq[i])]
                                ELSE [i \in 1..Len(EnvSeq) |-> EvalAtom(FromClause(item.name, item.cl), EnvSeq[i])]
                 /\ UNCHANGED item
@@ -80,5 +94,7 @@ FromSpecSpec == FromSpecInit /\ [][FromSpecNext]_svars
 FromSpecExact == phase = "converted" /\ table # <<>> =>
    \A i \in 1..Len(EnvSeq) :
       LET v == Final(EnvVersion(item.name, EnvSeq[i])) IN
-      table[i] = (IF item.k = "fromspec" THEN InRange(item.r, v) ELSE Sat(item.cl, v))
+      table[i] = (IF item.k = "fromspec" THEN InRange(item.r, v)
+                  ELSE IF item.k = "fromhole" THEN (VLess(v, item.h.lo) \/ (item.h.ui /\ VEq(v, item.h.lo)) \/ VLess(item.h.hi, v) \/ (item.h.li /\ VEq(v, item.h.hi)))
+                  ELSE Sat(item.cl, v))
 =============================================================================
